@@ -277,7 +277,11 @@ func (g *FieldGen) Comp(depth int, allowNone bool) *T {
 		if r.Bool() {
 			skip = "1"
 		}
-		modeT := N("t", A("0"), A("berTag"), A("nil"), A(Pick(r, []string{"hex", "str"})), A(skip), A("-"))
+		berPu := "-"
+		if skip == "1" && r.Intn(3) == 0 { // explicit (non-BER) length coding of unknown elements
+			berPu = Pick(r, []string{"ascii.2", "bcd.2", "binary.1", "binary.2", "ber"})
+		}
+		modeT := N("t", A("0"), A("berTag"), A("nil"), A(Pick(r, []string{"hex", "str"})), A(skip), A(berPu))
 		kids = append(kids, A(strconv.Itoa(length)), A(pref), modeT)
 		keys := make([]string, 0, n)
 		for k := range tags {
@@ -861,3 +865,43 @@ func ChannelK(t Tier, r *Rng, emit Emit) {
 		emit("K m " + g.MsgSpec(r.Intn(3)).String())
 	}
 }
+
+// ChannelMS: the message specs that SHIP with the library (iso8583.Spec87, specs.Spec87ASCII,
+// specs.Spec87Hex, examples.Spec, exp/emv), read back from the live Go values on every run
+// (impl.TreeOfMsgSpec), through implementation and model like channel M: generated contents
+// packed, the produced bytes unpacked, and every valid wire mutated (truncation at every
+// offset, substitutions, insertions, deletions, length-prefix edits).
+func ChannelMS(t Tier, r *Rng, emit Emit) {
+	g := NewFieldGen(r)
+	for _, name := range impl.ShippedNames {
+		spec, _, err := impl.TreeOfMsgSpec(impl.Shipped(name))
+		if err != nil {
+			emit("MS-untranslatable " + name)
+			continue
+		}
+		ss := spec.String()
+		for i := 0; i < t.N(30, 600); i++ {
+			m := g.Msg(spec)
+			// a few elements per message (Msg takes three quarters of a spec's 60-odd fields, and
+			// one value outside its encoder's alphabet makes the whole Pack fail)
+			if keep := 1 + r.Intn(8); len(m.Kids) > 1+keep && i%8 != 7 {
+				m.Kids = m.Kids[:1+keep]
+			}
+			line := fmt.Sprintf("M %s pack %s", ss, m.String())
+			emit(line)
+			wire, ok := packReal(line)
+			if !ok {
+				continue
+			}
+			emit(fmt.Sprintf("M %s unpack %s", ss, H(wire)))
+			for j, mm := range g.Mutate(wire) {
+				if j > t.N(40, 120) {
+					break
+				}
+				emit(fmt.Sprintf("M %s unpack %s", ss, H(mm)))
+			}
+		}
+	}
+}
+
+func init() { extraChannels["MS"] = ChannelMS }
